@@ -383,6 +383,10 @@ def wide_pool(w):
         pool.append(cellsof("p" * k + " " * (w - k)))
         pool.append(cellsof("p" * k))
     # single-column characters that str methods treat as whitespace but a terminal shows as themselves
+    # rows wider than the terminal made of many short runs, the terminal's right edge falling inside a run
+    over = "abcdefghijklmnopqrstuvwxyz0123456789ABCDEFGHIJKLMNOPQRSTUVWXYZ"[: w + 9] + "#" * max(0, w + 9 - 62)
+    pool.append(tuple((c, (RED, (), (("bg", 44),))[((i + 1) // 2) % 3]) for i, c in enumerate(over)))
+    pool.append(tuple((c, (RED, (), (("bold", True),))[(i // 3) % 3]) for i, c in enumerate(over[: w + 2])))
     pool.append(cellsof("pp\xa0"))
     pool.append(cellsof("\u1680"))
     pool.append(cellsof("q\u2003\u2003") + cellsof("\xa0", RED) + cellsof("\x85"[:0]))
@@ -654,7 +658,7 @@ def sessions_two_windows(args):
 
 def run(ctx):
     rep = Report()
-    huge = [(ctx.tier, ctx.seed, hide, h, w, rich) for hide in (True, False) for (h, w, rich) in ((140, 12, False), (130, 3, True), (100, 80, True), (129, 40, False))]
+    huge = [(ctx.tier, ctx.seed, hide, h, w, rich) for hide in (True, False) for (h, w, rich) in ((140, 12, False), (130, 3, True), (100, 80, True), (129, 40, False), (260, 4, False), (300, 2, True))]
     for d in ctx.pmap(sessions_huge, huge):
         rep.merge(d, "screens_of_100_to_140_rows")
     for d in ctx.pmap(sessions_two_windows, [(ctx.tier, ctx.seed, hide, p, 8) for hide in (True, False) for p in range(8)]):
